@@ -12,6 +12,7 @@ import (
 	"github.com/thushan/olla/internal/app"
 	"github.com/thushan/olla/internal/app/services"
 	"github.com/thushan/olla/internal/config"
+	"github.com/thushan/olla/internal/core/domain"
 	"github.com/thushan/olla/internal/verif/h/lib/hutil"
 )
 
@@ -194,4 +195,26 @@ func (o *Olla) Status() map[string]string {
 		m[e.Name] = string(e.Status)
 	}
 	return m
+}
+
+// SetStatus writes an endpoint status into the repository the way a health check result does
+// (used by history prefixes to readmit or isolate one endpoint without probing the others).
+func (o *Olla) SetStatus(name string, st domain.EndpointStatus) error {
+	d, err := o.Manager.GetRegistry().GetDiscovery()
+	if err != nil {
+		return err
+	}
+	eps, _ := d.GetEndpoints(context.Background())
+	for _, e := range eps {
+		if e.Name == name {
+			c := *e
+			c.Status = st
+			c.LastChecked = time.Now()
+			c.ConsecutiveFailures = 0
+			c.BackoffMultiplier = 1
+			c.NextCheckTime = time.Now().Add(time.Hour)
+			return d.UpdateEndpointStatus(context.Background(), &c)
+		}
+	}
+	return fmt.Errorf("no endpoint %s", name)
 }
